@@ -23,7 +23,7 @@ ASSUMPTIONS = [
     "no ACL, implicit defaults off, add_comments off",
     "if both front ends raise the same exception type for an input they are counted as agreeing (exceptions_agreed)",
 ]
-FLOORS = {"quick": {"pairs_compared": 500, "nonempty_patches": 300, "file_workers_compared": 150, "file_workers_concrete_model": 80, "equal_config_pairs": 300, "device_workers_compared": 150, "device_workers_safe_differs_from_full": 40, "file_diff_lines_checked": 1500, "file_diff_moved_lines_checked": 60, "vlan_list_pairs": 300, "file_workers_compared_with_comments": 150, "patches_whose_commands_carry_comments": 10, "file_pairs_saved_with_a_left_margin": 100, "file_workers_with_another_output_indent": 40},
+FLOORS = {"quick": {"directories_scanned_for_saved_configurations": 30, "pairs_compared": 500, "nonempty_patches": 300, "file_workers_compared": 150, "file_workers_concrete_model": 80, "equal_config_pairs": 300, "device_workers_compared": 150, "device_workers_safe_differs_from_full": 40, "file_diff_lines_checked": 1500, "file_diff_moved_lines_checked": 60, "vlan_list_pairs": 300, "file_workers_compared_with_comments": 150, "patches_whose_commands_carry_comments": 10, "file_pairs_saved_with_a_left_margin": 100, "file_workers_with_another_output_indent": 40},
           "thorough": {"pairs_compared": 20000, "nonempty_patches": 12000, "file_workers_compared": 150, "file_workers_concrete_model": 80, "equal_config_pairs": 300, "device_workers_compared": 150, "device_workers_safe_differs_from_full": 40, "file_diff_lines_checked": 1500, "file_diff_moved_lines_checked": 60, "vlan_list_pairs": 6000, "file_workers_compared_with_comments": 150, "patches_whose_commands_carry_comments": 10}}
 EXTRA_MODELS = {"huawei": ["Huawei CE6870", "Huawei NE40E-X8", "Huawei Quidway S5300"], "huawei ce": ["Huawei"], "cisco": ["Cisco Catalyst 2960"],
                 "nexus": ["Cisco Nexus 3432"], "asr": ["Cisco XRv"], "iosxr": ["Cisco ASR 9010"]}
@@ -356,7 +356,53 @@ def run_files(spec, acc):
         shutil.rmtree(d, ignore_errors=True)
 
 
+def check_batch_scan(spec, acc):
+    """`annet file-diff OLD_DIR NEW_DIR`: every saved configuration present in both directories is handed to the worker - whatever the two files
+    hold (equal, differing in one line, differing in the nesting of a line only, blank-line differences)"""
+    import shutil
+    import tempfile
+    import types as _t
+    from annet import api
+    rng = random.Random("C16/batch/%s" % spec["seed"])
+    d = tempfile.mkdtemp(prefix="vf_c16_batch_")
+    try:
+        for k in range(40 if spec["tier"] == "quick" else 400):
+            od, nd = os.path.join(d, "o%d" % k), os.path.join(d, "n%d" % k)
+            os.makedirs(od)
+            os.makedirs(nd)
+            body = ["sysname sw%d" % k, "aaa", " domain default", "  accounting-scheme acct", " local-user x", "interface GE1", " description a"]
+            want = set()
+            for h in range(rng.randint(2, 6)):
+                kind = rng.choice(["equal", "line", "nesting", "blank", "old-only", "new-only"])
+                o_, n_ = list(body), list(body)
+                if kind == "line":
+                    n_[-1] = " description b"
+                elif kind == "nesting":
+                    n_[3] = " accounting-scheme acct"       # the same words one level further out
+                elif kind == "blank":
+                    n_.insert(2, "")
+                name = "h%d.cfg" % h
+                if kind != "new-only":
+                    open(os.path.join(od, name), "w").write("\n".join(o_) + "\n")
+                if kind != "old-only":
+                    open(os.path.join(nd, name), "w").write("\n".join(n_) + "\n")
+                if kind not in ("old-only", "new-only"):
+                    want.add((name, kind))
+            got = {os.path.basename(a_) for a_, b_ in api._read_old_new_cfgdumps(_t.SimpleNamespace(old=od, new=nd))}
+            acc.count("directories_scanned_for_saved_configurations")
+            acc.case(["batch", sorted(want)], nontrivial=bool(want))
+            # (pairs that hold the same configuration may be skipped: nothing would be printed for them anyway)
+            missing = sorted((n_, k_) for n_, k_ in want if n_ not in got and k_ in ("line", "nesting"))
+            if missing or (got - {n_ for n_, _ in want}):
+                acc.violation("C16/batch-scan-skips-a-pair", "a saved configuration present in both directories, and not the same in both, is not handed to the file workers (or one present in one only is)",
+                              {"batch": True, "seed": spec["seed"], "missing": [list(x) for x in missing], "unexpected": sorted(got - {n_ for n_, _ in want})})
+                return
+    finally:
+        shutil.rmtree(d, ignore_errors=True)
+
+
 def run_workers(spec, acc):
+    check_batch_scan(spec, acc)
     """the device front ends as the CLI runs them (`annet patch` / `annet diff` workers over a loader, generators and the device text)
     against the composition they wrap, with and without --acl-safe"""
     from annet import api
@@ -434,6 +480,8 @@ def run_shard(spec, acc):
         return run_workers(spec, acc)
     if spec["mode"] == "vlans":
         return run_vlans(spec, acc)
+    if spec["mode"] == "replay" and spec["witness"].get("batch"):
+        return check_batch_scan({"tier": "quick", "seed": spec["witness"].get("seed", 0)}, acc)
     if spec["mode"] == "replay" and spec["witness"].get("workers"):
         return run_workers({"tier": "quick", "seed": 0}, acc)
     if spec["mode"] == "replay":
